@@ -69,7 +69,11 @@ Section Model.
   Variable is_scalar : fld -> bool.
   Variable is_list : fld -> bool.
 
-  Definition in_field (e : edge) (V : list edge) : bool := mem e V.
+  (* `value in container` / `v != value` compare with Python ==, not by identity: [cls o] is the ==-class of object o (two distinct
+     objects that compare and hash equal share a class; for identity-compared classes cls is injective) *)
+  Variable cls : inst -> nat.
+  Definition in_field (e : edge) (V : list edge) : bool :=
+    existsb (fun v => Nat.eqb (esrc v) (esrc e) && Nat.eqb (efld v) (efld e) && Nat.eqb (cls (etgt v)) (cls (etgt e))) V.
   Definition drop_field (s : inst) (f : fld) (V : list edge) : list edge :=
     filter (fun v => negb (Nat.eqb (esrc v) s && Nat.eqb (efld v) f)) V.
   Definition write_back (e : edge) (V : list edge) : list edge :=
